@@ -9,6 +9,7 @@ import Cascette.Model.ArchiveIndex
 import Cascette.Model.RootFile
 import Cascette.Model.TvfsPath
 import Cascette.Model.Jenkins
+import Cascette.Model.Resolver
 open Cascette Drv
 open Cascette.Model
 
@@ -76,17 +77,15 @@ def nameHash (path : List Nat) : Nat :=
   let norm := path.map fun b => if 97 ≤ b ∧ b ≤ 122 then b - 32 else if b = 47 then 92 else b
   (Model.Jenkins.jenkins96 (norm.map (BitVec.ofNat 8))).1.toNat
 
-/-- `ContentResolver::resolve_file_data_id`: the map is filled in block/record order, later wins -/
-def resFdid (p : RootFile.Parsed) (fdid : Nat) : Option (List Nat) :=
-  ((p.blocks.flatMap (·.recs)).reverse.find? (·.fdid == fdid)).map (·.ckey)
+/-- `ContentResolver::resolve_path_to_encoding`: `calculate_name_hash`, then the chain of
+Model/Resolver (the model the theorem `resolver_chain` is about) -/
+def pathToEkey (p : RootFile.Parsed) (f : Encoding.File) (path : List Nat) : Option (List Nat) :=
+  Resolver.hashToEkey p f (nameHash path)
 
-/-- `ContentResolver::resolve_path`: first record whose name hash equals the path's hash -/
-def resPath (p : RootFile.Parsed) (path : List Nat) : Option (List Nat) :=
-  ((p.blocks.flatMap (·.recs)).find? (·.nameHash == some (nameHash path))).map (·.ckey)
-
-/-- `resolve_content_key`: cache filled from every parsed CKey page entry (first EKey), later wins -/
-def resCkey (f : Encoding.File) (ck : List Nat) : Option (List Nat) :=
-  ((f.ctable.flatMap (·.2)).reverse.find? (fun e => e.ckey == ck && !e.ekeys.isEmpty)).bind (·.ekeys.head?)
+/-- canonical listing of the parsed blocks: locale:content:count:fdid+fdid+… per block, in order -/
+def showBlocks (p : RootFile.Parsed) : String :=
+  joinOr (p.blocks.map fun b =>
+    s!"{b.locale}:{b.content}:{b.numRecords}:" ++ "+".intercalate (b.recs.map fun r => toString r.fdid)) ";"
 
 def step (s : St) (toks : List String) : St × String :=
   match toks with
@@ -209,6 +208,10 @@ def step (s : St) (toks : List String) : St × String :=
       match ArchiveIndex.buildParse s.ks s.ob s.rpb s.ients.reverse with
       | some c => ({ s with idx := some c, built := true }, s!"ok n={c.entries.length} toc={c.toc.length}")
       | none => ({ s with idx := none, built := true }, "err:parse")
+    | ["toc"] =>
+      match s.idx with
+      | none => (s, if s.built then "err:nofile" else "bad-op")
+      | some c => (s, joinOr (c.toc.map hx) ",")
     | [op, arg] =>
       match s.idx, parseHexNat arg with
       | none, _ => (s, if s.built then "err:nofile" else "bad-op")
@@ -261,6 +264,10 @@ def step (s : St) (toks : List String) : St × String :=
         | some p =>
           ({ s with root := some p, built := true },
             s!"ok ver={p.version.num} blocks={p.blocks.length} recs={(p.blocks.map (·.recs.length)).sum}")
+    | ["blocks"] =>
+      match s.root with
+      | none => (s, if s.built then "err:nofile" else "bad-op")
+      | some p => (s, showBlocks p)
     | [op, a, loc, cf] =>
       match s.root, a.toNat?, loc.toNat?, cf.toNat? with
       | some p, some a, some loc, some cf =>
@@ -326,11 +333,11 @@ def step (s : St) (toks : List String) : St × String :=
       | some (p, f) =>
         if op == "rf" then
           match arg.toNat? with
-          | some fd => (s, match (resFdid p fd).bind (resCkey f) with | some ek => hx ek | none => "none")
+          | some fd => (s, match Resolver.fdidToEkey p f fd with | some ek => hx ek | none => "none")
           | none => (s, "bad-op")
         else if op == "rq" then
           match parseHexNat arg with
-          | some path => (s, match (resPath p path).bind (resCkey f) with | some ek => hx ek | none => "none")
+          | some path => (s, match pathToEkey p f path with | some ek => hx ek | none => "none")
           | none => (s, "bad-op")
         else (s, "bad-op")
     | _ => (s, "bad-op")
